@@ -14,9 +14,9 @@ from mc import core, gen, harness, traces
 from mc.core import Result, Violation
 from mc.ref import interp, tracegrammar
 
-ALPHA_FULL = ["src", "srcdef", "paysrc", "mul", "muldef", "ctxw", "fail", "badw", "interrupt", "sum", "probe_factor",
+ALPHA_FULL = ["src", "srcdef", "paysrc", "mul", "muldef", "ctxw", "fail", "badw", "interrupt", "abort", "sysexit", "sum", "probe_factor",
               "ren_r_factor", "del_factor", "slice_mul", "sweep_op", "sink_ctx", "bogus", "probe_nokey", "unknown", "two"]
-ALPHA_SMALL = ["src", "mul", "muldef", "fail", "badw", "interrupt", "sum", "probe_factor", "ren_r_factor", "bogus", "probe_nokey", "sink"]
+ALPHA_SMALL = ["src", "mul", "muldef", "fail", "badw", "interrupt", "abort", "sum", "probe_factor", "ren_r_factor", "bogus", "probe_nokey", "sink"]
 
 
 def open_fds_on(path_prefix: str) -> List[str]:
